@@ -879,113 +879,34 @@ func (n NF) Hash() string {
 }
 
 // ---------------------------------------------------------------------------
-// canonical order of map lookups
+// canonical form of map lookups
 
-var reLookup = regexp.MustCompile(`^(?:http-request|tcp-request content) set-var\(([^)]+)\) .*?map(?:_([a-z]+))?\(<<(.*?)>>`)
-
-type lookupLine struct {
-	text   string
-	v      string
-	method string
-	hosts  []string // host part of every key (regex source for reg files)
-}
-
-func parseLookup(line string) *lookupLine {
-	m := reLookup.FindStringSubmatch(line)
-	if m == nil {
-		return nil
-	}
-	l := &lookupLine{v: m[1], method: m[2]}
-	// the "not found yet" guard is implied by the position in the sequence
-	guard := " !{ var(" + l.v + ") -m found }"
-	text := strings.Replace(line, guard, "", 1)
-	text = strings.TrimSuffix(text, " if")
-	text = strings.Replace(text, " if  ", " if ", 1)
-	l.text = text
-	for _, e := range strings.Split(m[3], " ; ") {
-		f := strings.Fields(e)
-		if len(f) == 0 {
-			continue
-		}
-		h := f[0]
-		if i := strings.IndexByte(h, '#'); i >= 0 {
-			h = h[:i]
-		}
-		l.hosts = append(l.hosts, h)
-	}
-	return l
-}
-
-// commute reports whether two consecutive lookups of the same variable can be
-// swapped without changing any outcome: no request host can hit both files.
-func commute(a, b *lookupLine) bool {
-	if a.method == "reg" && b.method == "reg" {
-		return false
-	}
-	if a.method == "reg" || b.method == "reg" {
-		r, o := a, b
-		if b.method == "reg" {
-			r, o = b, a
-		}
-		for _, src := range r.hosts {
-			re, err := regexp.Compile(strings.TrimSuffix(src, "$") + "$")
-			if err != nil {
-				return false
-			}
-			for _, h := range o.hosts {
-				if re.MatchString(h) {
-					return false
-				}
-			}
-		}
-		return true
-	}
-	set := map[string]bool{}
-	for _, h := range a.hosts {
-		set[h] = true
-	}
-	for _, h := range b.hosts {
-		if set[h] {
-			return false
-		}
-	}
-	return true
-}
-
-// canonLookups rewrites maximal runs of consecutive lookups of one variable into
-// a canonical order, swapping only neighbours that commute, and drops the
-// "if not found yet" guard (first match wins is implied by the order).
+// canonLookups replaces every maximal run of consecutive map lookups that set
+// the same variable by the decision table of the run over its probe set (see
+// haeval.go): equivalent file layouts (how entries are split into files, order
+// of files that cannot both match) compare equal, a different outcome for any
+// probe does not.
 func canonLookups(lines []string) []string {
-	out := append([]string(nil), lines...)
+	var out []string
 	i := 0
-	for i < len(out) {
-		first := parseLookup(out[i])
+	for i < len(lines) {
+		first := parseLookupStep(lines[i])
 		if first == nil {
+			out = append(out, lines[i])
 			i++
 			continue
 		}
-		run := []*lookupLine{first}
+		run := []*lookupStep{first}
 		j := i + 1
-		for j < len(out) {
-			l := parseLookup(out[j])
-			if l == nil || l.v != first.v {
+		for j < len(lines) {
+			l := parseLookupStep(lines[j])
+			if l == nil || l.Var != first.Var {
 				break
 			}
 			run = append(run, l)
 			j++
 		}
-		for changed := true; changed; {
-			changed = false
-			for k := 0; k+1 < len(run); k++ {
-				if run[k].text > run[k+1].text && commute(run[k], run[k+1]) {
-					run[k], run[k+1] = run[k+1], run[k]
-					changed = true
-				}
-			}
-		}
-		for k, l := range run {
-			out[i+k] = l.text
-		}
+		out = append(out, "lookup "+first.Var+" := {"+strings.Join(decisionTable(run), " | ")+"}")
 		i = j
 	}
 	return out
